@@ -23,6 +23,14 @@
 (*            session tried to declare, a class that is its own ancestor;  *)
 (*            state of the REPOSITORY: survives the end of the compile     *)
 (*            call, whether it succeeded or failed                         *)
+(*   lexoff = the line counter of the compiler's base lexer (self.lexer;   *)
+(*            every compile_string and every nested compile starts from a  *)
+(*            clone of it) is not 1 any more: a text was tokenized with    *)
+(*            the base lexer itself.  State of the COMPILER OBJECT:        *)
+(*            survives the end of the compile call.  A frame remembers in  *)
+(*            `off` whether its lexer was cloned from a shifted base       *)
+(*   erroff = the line of the error raised was counted from a shifted      *)
+(*            start (it is not a line of the text the error stands in)     *)
 (*                                                                         *)
 (* A compile call pushes a frame; `#pragma include` (p_compilerDirective ->*)
 (* compile_file -> compile_string) pushes another one; a normal return     *)
@@ -34,6 +42,7 @@
 (* and checks                                                              *)
 (*   ImplRefinesReq   the outcome is admissible for the requirement        *)
 (*   PositionFileOK   an error names the file its production stands in     *)
+(*   PositionLineOK   ... and a line counted from the start of that text   *)
 (*   Reusable         the good phase succeeds and loses nothing            *)
 (*   Termination      every compile call returns (PROPERTY, fair steps)    *)
 (* With IncludeGuard = FALSE a self-including file recurses until the      *)
@@ -48,9 +57,9 @@ EXTENDS MofCompileImplOps
 CONSTANTS MaxProd, MaxDepth, OnlyKinds
 
 VARIABLES ses, phase, stack, pfile, pmof, emb, nsw, cyc, out, errfile,
-          errowner, lost, reg, nsinit, lcyc
+          errowner, lost, reg, nsinit, lcyc, lexoff, erroff
 vars == <<ses, phase, stack, pfile, pmof, emb, nsw, cyc, out, errfile,
-          errowner, lost, reg, nsinit, lcyc>>
+          errowner, lost, reg, nsinit, lcyc, lexoff, erroff>>
 
 Parts == SessionParts(MaxProd, OnlyKinds)
 
@@ -58,19 +67,22 @@ GoodText == <<PlainOf("qualDecl"), PlainOf("class"), PlainOf("instance")>>
 GoodFile == 9
 EmbText == 50
 
+\* part I: the later call compiles the defective production alone
 ProdsOf(f) == IF f = 1 THEN ses.main ELSE IF f = 2 THEN ses.inc
+              ELSE IF LaterError(ses) THEN ses.good
               ELSE GoodText \o ses.good
 
-Frame(f, saved, savedmof) ==
-  [f |-> f, pc |-> 1, saved |-> saved, savedmof |-> savedmof]
+Frame(f, saved, savedmof, off) ==
+  [f |-> f, pc |-> 1, saved |-> saved, savedmof |-> savedmof, off |-> off]
 
 Init == /\ \E i \in DOMAIN Parts : ses \in Parts[i]
         /\ phase = "bad"
-        /\ stack = <<Frame(1, 0, 0)>>
+        /\ stack = <<Frame(1, 0, 0, FALSE)>>
         /\ pfile = 1 /\ pmof = 1
         /\ emb = FALSE /\ nsw = FALSE /\ lost = FALSE /\ cyc = FALSE
         /\ out = "" /\ errfile = 0 /\ errowner = 0
         /\ reg = FALSE /\ nsinit = TRUE /\ lcyc = FALSE
+        /\ lexoff = FALSE /\ erroff = FALSE
 
 Top == stack[Len(stack)]
 OnStack(f) == \E i \in DOMAIN stack : stack[i].f = f
@@ -90,7 +102,12 @@ Raise(x, p) ==
   /\ reg' = (reg \/ (~RegisterAfterCreate /\ ReachesCreate(p)))
   \* the exception unwinds the compile, not the repository
   /\ lcyc' = (lcyc \/ LeavesCycle(p))
-  /\ UNCHANGED <<ses, phase, pfile, pmof, nsw, cyc, lost, nsinit>>
+  \* the line of the error: counted by the lexer of the text it stands in
+  \* (a clone made when the frame was pushed), for an error inside a nested
+  \* text by the lexer of the nested compile
+  /\ erroff' = IF EmbRuns(p) /\ p.d = "value"
+               THEN (lexoff /\ ~EmbLexerClone) ELSE Top.off
+  /\ UNCHANGED <<ses, phase, pfile, pmof, nsw, cyc, lost, nsinit, lexoff>>
 
 Return ==
   /\ Top.pc > Len(ProdsOf(Top.f))
@@ -99,7 +116,7 @@ Return ==
   /\ pmof' = IF RestoreOnReturn THEN Top.savedmof ELSE pmof
   /\ out' = IF Len(stack) = 1 THEN "ok" ELSE out
   /\ UNCHANGED <<ses, phase, emb, nsw, cyc, errfile, errowner, lost, reg,
-                 nsinit, lcyc>>
+                 nsinit, lcyc, lexoff, erroff>>
 
 IncludeTarget(p) ==
   IF p.v = "inc2" THEN 2 ELSE IF p.v = "mutual" THEN 1 ELSE Top.f
@@ -116,11 +133,12 @@ Step ==
           IF IncludeGuard /\ OnStack(g) /\ (GuardCanonical \/ p.a = 0)
           THEN Raise("MOFParseError", p)
           ELSE IF Len(stack) >= MaxDepth THEN Raise("RecursionError", p)
-          ELSE /\ stack' = Append(Bump, Frame(g, pfile, pmof))
+          \* compile_file -> compile_string: lexer = self.lexer.clone()
+          ELSE /\ stack' = Append(Bump, Frame(g, pfile, pmof, lexoff))
                /\ pfile' = g /\ pmof' = g
                /\ nsinit' = TRUE     \* compile_string(mof, target namespace)
                /\ UNCHANGED <<ses, phase, emb, nsw, cyc, out, errfile,
-                              errowner, lost, reg, lcyc>>
+                              errowner, lost, reg, lcyc, lexoff, erroff>>
      ELSE \E r \in ImplProd(p, [nsw |-> nsw, emb |-> emb, cyc |-> cyc,
                                 reg |-> reg, nsinit |-> nsinit,
                                 lcyc |-> lcyc]) :
@@ -145,8 +163,11 @@ Step ==
                                     THEN TRUE ELSE nsinit
                                ELSE IF p.k \in {"class", "instance"}
                                THEN TRUE ELSE nsinit
+                 \* a nested text tokenized with the base lexer itself
+                 \* leaves its line ends there
+                 /\ lexoff' = (lexoff \/ (EmbLines(p) /\ ~EmbLexerClone))
                  /\ UNCHANGED <<ses, phase, pfile, out, errfile, errowner,
-                                reg>>
+                                reg, erroff>>
             ELSE Raise(r, p)
 
 Running == phase \in {"bad", "good"} /\ out = "" /\ stack # << >>
@@ -154,17 +175,17 @@ Running == phase \in {"bad", "good"} /\ out = "" /\ stack # << >>
 StartGood ==
   /\ phase = "bad" /\ out # ""
   /\ phase' = "good"
-  /\ stack' = <<Frame(GoodFile, pfile, pmof)>>
+  /\ stack' = <<Frame(GoodFile, pfile, pmof, lexoff)>>
   /\ pfile' = GoodFile /\ pmof' = GoodFile
   /\ nsw' = FALSE          \* compile_string sets target_namespace from ns
   /\ out' = "" /\ lost' = FALSE /\ cyc' = FALSE
   /\ nsinit' = TRUE
-  /\ UNCHANGED <<ses, emb, errfile, errowner, reg, lcyc>>
+  /\ UNCHANGED <<ses, emb, errfile, errowner, reg, lcyc, lexoff, erroff>>
 
 Finish == /\ phase = "good" /\ out # ""
           /\ phase' = "end"
           /\ UNCHANGED <<ses, stack, pfile, pmof, emb, nsw, cyc, out, errfile,
-                         errowner, lost, reg, nsinit, lcyc>>
+                         errowner, lost, reg, nsinit, lcyc, lexoff, erroff>>
 
 Next == (Running /\ (Return \/ Step)) \/ StartGood \/ Finish
 Spec == Init /\ [][Next]_vars /\ WF_vars(Next)
@@ -182,9 +203,11 @@ ImplRefinesReq ==
   /\ (phase = "bad" /\ out # "") => out \in Admissible(ses)
   /\ (phase \in {"good", "end"} /\ out # "") => out \in AnyMof
 PositionFileOK == (out \in MOFErrors) => errfile = errowner
+\* ... and a line counted from the start of the text it stands in
+PositionLineOK == (out \in MOFErrors) => ~erroff
 \* valid MOF afterwards compiles and loses nothing (part H: the later text
-\* is not valid MOF, nothing is promised beyond Total)
-Reusable == (phase \in {"good", "end"} /\ out # "" /\ ~LaterUndeclared(ses))
+\* is not valid MOF, nothing is promised beyond Total; the same for part I)
+Reusable == (phase \in {"good", "end"} /\ out # "" /\ ~LaterInvalid(ses))
             => (out = "ok" /\ ~lost)
 Termination == <>(phase = "end")
 
